@@ -62,6 +62,7 @@ def parseItem (j : Json) : Except String Item := do
                             dangling := ← (← arrAt j 4).getBool? })
   | "read" => pure (.read (← natAt j 1) (← parseBeh (← arrAt j 2)))
   | "bad" => pure (.bad (← parseBeh (← arrAt j 1)))
+  | "other" => pure .other
   | s => throw s!"unknown item {s}"
 
 def parseFiles (j : Json) : Except String FileSys := do
@@ -87,6 +88,7 @@ def parseOp (j : Json) : Except String Op := do
   | "write" => pure (.write (← natAt j 1))
   | "set" => pure (.setter { id := ← natAt j 1, types := ← parseTypes (← arrAt j 2) } (← natAt j 3)
                     { cls := ← natAt j 4, mro := ← natList (← arrAt j 5) })
+  | "construct" => pure (.construct (← natAt j 1))
   | s => throw s!"unknown op {s}"
 
 def optNat : Option Nat → Json
